@@ -26,7 +26,7 @@ struct World {
     mirrors: Vec<(usize, usize)>,
 }
 
-fn build(with_mirrors: bool, with_replica: bool, mirror_targets: &[usize], prewarm: bool) -> Result<World, String> {
+fn build(with_mirrors: bool, with_replica: bool, mirror_targets: &[usize], prewarm: bool, workers: u32) -> Result<World, String> {
     let mut cell = Cell::new();
     let p = cell.add_mock("db.s0.primary.0");
     let mut servers = vec![cell.server(p, "primary")];
@@ -50,6 +50,8 @@ fn build(with_mirrors: bool, with_replica: bool, mirror_targets: &[usize], prewa
         }
     }
     let mut cfg = Cfg::new();
+    // (with a single worker thread anything that spins or blocks in a mirror task is felt by every client)
+    cfg.gset("worker_threads", &workers.to_string());
     let mut pool = PoolCfg::single("db", USER, PASS, 2, servers);
     pool.shards[0].mirrors = mcfg;
     pool.set("connect_timeout", "300");
@@ -157,7 +159,8 @@ fn scenario(seed: u64, rep: &Report, isolated: bool, nominated: &std::sync::Mute
     if prewarm {
         rep.count("scenarios_with_prewarmer", 1);
     }
-    let wb = build(true, with_replica, &targets, prewarm)?;
+    let n_workers: u32 = *rng.pick(&[1, 1, 2, 4]);
+    let wb = build(true, with_replica, &targets, prewarm, n_workers)?;
     let stop = Arc::new(AtomicBool::new(false));
     let ctls: Vec<_> = wb.mirrors.iter().map(|(m, _)| wb.cell.mocks[*m].ctl.clone()).collect();
     let stop2 = stop.clone();
@@ -259,8 +262,30 @@ fn scenario(seed: u64, rep: &Report, isolated: bool, nominated: &std::sync::Mute
         c.terminate();
         rep.count("stalled_mirror_big_request_epilogues", 1);
     }
+    // ---- with every client gone and the mirrors healthy again the pooler has nothing to do: it must
+    // not keep a core busy (a task spinning on a dead mirror connection is waiting time for every
+    // client as soon as cores are scarce)
+    if rng.chance(1, 2) {
+        for (m, _) in &wb.mirrors {
+            wb.cell.mocks[*m].ctl.heal();
+        }
+        sleep_ms(250);
+        let (c0, t0) = (wb.cell.pg.as_ref().map(|p| p.cpu_ms()).unwrap_or(0), crate::util::now_ns());
+        sleep_ms(600);
+        let (c1, t1) = (wb.cell.pg.as_ref().map(|p| p.cpu_ms()).unwrap_or(0), crate::util::now_ns());
+        let wall_ms = (t1 - t0) / 1_000_000;
+        rep.count("idle_cpu_windows_measured", 1);
+        rep.max("max_idle_cpu_ms_per_600ms", c1.saturating_sub(c0));
+        if c1.saturating_sub(c0) * 100 > wall_ms * 40 {
+            rep.violation(
+                "C20|pooler_keeps_a_core_busy_after_mirror_faults_with_no_client_connected",
+                &format!("no client connected, mirrors healthy again: the pooler used {} ms of CPU in {} ms", c1 - c0, wall_ms),
+                json!({"seed": seed, "log_tail": wb.cell.pg.as_ref().map(|p| p.log_tail(6))}),
+            );
+        }
+    }
     // ---- run A: same program, no mirrors
-    let wa = build(false, with_replica, &[], prewarm)?;
+    let wa = build(false, with_replica, &[], prewarm, n_workers)?;
     let ra = run_program(&wa.cell.addr(), seed, clients, reqs)?;
     // ---- differential comparison
     for (ca, cb) in ra.iter().zip(rb.iter()) {
